@@ -1,7 +1,9 @@
 #!/bin/sh
 # runs the pinned baseline suite of /repo and prints pass/fail counts (expected: 179 passed, 1 failed = test_version_update_pypi)
 X=$(mktemp /tmp/junit.XXXXXX.xml)
-cd ${1:-/repo} && /venv/bin/python -m pytest -ra -q -p no:cacheprovider --timeout=900 --continue-on-collection-errors --junitxml=$X >/dev/null 2>&1
+# test_recursion_error_handling indexes the whole temp directory: give the suite a private, empty one
+T=$(mktemp -d /tmp/baseline_tmp.XXXXXX)
+cd ${1:-/repo} && TMPDIR=$T /venv/bin/python -m pytest -ra -q -p no:cacheprovider --timeout=900 --continue-on-collection-errors --junitxml=$X >/dev/null 2>&1
 python3 - "$X" <<'PY'
 import sys, xml.etree.ElementTree as ET
 r = ET.parse(sys.argv[1]).getroot()
@@ -13,4 +15,4 @@ for tc in r.iter("testcase"):
         bad.append(tc.get("classname") + "::" + tc.get("name"))
 print("tests=%d passed=%d failed=%s" % (n, n - len(bad), bad))
 PY
-rm -f $X
+rm -f $X; rm -rf $T
